@@ -1,6 +1,7 @@
 package props
 
 import (
+	"path/filepath"
 	"fmt"
 	"strconv"
 	"strings"
@@ -176,7 +177,109 @@ func runC03(r *core.Run) {
 		n := []int{0, 1, 2, 3, 6, 12, 40, 170, 330}[rng.Intn(9)]
 		t := genTable(r, "t", cols, gens, n)
 		cpu := []int{1, 4, 8}[rng.Intn(3)]
-		switch kind := rng.Intn(10); {
+		switch kind := rng.Intn(13); {
+		case kind == 10: // LATERAL: the sub-query is evaluated for every row of the left table, seeing that row
+			m := []int{0, 1, 3, 8, 25}[rng.Intn(5)]
+			u := genTable(r, "u", []string{"id", "a", "b", "k"}, gens, m)
+			col := []int{4, 2}[rng.Intn(2)] // correlation on k or a
+			cn := []string{"", "a", "", "k"}[col-1]
+			var sql, sig string
+			ev := map[string]interface{}{"L": cellsJSON(t.Rows), "R": cellsJSON(u.Rows), "wl": 4, "wr": 4}
+			eq := cexpr{"k": "cmp", "op": "=", "l": cexpr{"k": "col", "i": col}, "r": cexpr{"k": "col", "i": 4 + col}}
+			switch rng.Intn(3) {
+			case 0:
+				sql = "SELECT * FROM t CROSS JOIN LATERAL (SELECT * FROM u WHERE u." + cn + " = t." + cn + ") s"
+				sig = "select:lateral:cross"
+				ev["kind"], ev["jk"], ev["cond"], ev["where"], ev["proj"], ev["ordered"] = "join", "inner", eq, cexpr{"k": "true"}, seqInts(1, 8), false
+			case 1:
+				sql = "SELECT * FROM t LEFT JOIN LATERAL (SELECT * FROM u WHERE u." + cn + " = t." + cn + ") s ON 1 = 1"
+				sig = "select:lateral:left"
+				ev["kind"], ev["jk"], ev["cond"], ev["where"], ev["proj"], ev["ordered"] = "join", "left", eq, cexpr{"k": "true"}, seqInts(1, 8), false
+			default:
+				sql = "SELECT t.id, s.c FROM t, LATERAL (SELECT COUNT(*) AS c FROM u WHERE u." + cn + " = t." + cn + ") s"
+				sig = "select:lateral:count"
+				ev["kind"], ev["li"], ev["ri"] = "lateralcount", col, col
+			}
+			x := newRelRun(r, cpu, t, u)
+			res, _, e := x.query(sql + ";")
+			x.close()
+			if e != "" {
+				fail(sig, sql, e)
+				continue
+			}
+			rankStrings(t.Rows, u.Rows, res)
+			ev["res"] = cellsJSON(res)
+			evs = append(evs, relEvent{SQL: sql, Sig: sig, CPU: cpu, Ev: ev})
+		case kind >= 11: // recursive common table expression over an acyclic edge table (nodes 1..7, src < dst, some NULLs)
+			ne := []int{0, 1, 3, 6, 10, 16}[rng.Intn(6)]
+			var edges [][]int
+			var csv strings.Builder
+			csv.WriteString("src,dst\n")
+			for i := 0; i < ne; i++ {
+				a := 1 + rng.Intn(6)
+				b := a + 1 + rng.Intn(7-a)
+				switch rng.Intn(12) {
+				case 0:
+					a = -1
+				case 1:
+					b = -1
+				}
+				edges = append(edges, []int{a, b})
+				cell := func(v int) string {
+					if v == -1 {
+						return ""
+					}
+					return fmt.Sprint(v)
+				}
+				csv.WriteString(cell(a) + "," + cell(b) + "\n")
+			}
+			k0 := 1 + rng.Intn(3)
+			all := rng.Intn(2) == 0
+			op := "UNION"
+			if all {
+				op = "UNION ALL"
+			}
+			sql := fmt.Sprintf("WITH RECURSIVE r (n, d) AS (SELECT dst, 1 FROM e WHERE src = %d %s SELECT e.dst, r.d + 1 FROM r JOIN e ON e.src = r.n) SELECT n, d FROM r", k0, op)
+			if !all && rng.Intn(2) == 0 {
+				// without the depth column equal nodes reached on different paths coincide
+				sql = fmt.Sprintf("WITH RECURSIVE r (n, d) AS (SELECT dst, 0 FROM e WHERE src = %d UNION SELECT e.dst, 0 FROM r JOIN e ON e.src = r.n) SELECT n, d FROM r", k0)
+			}
+			x := newRelRun(r, cpu)
+			writeFile(filepath.Join(x.dir, "e.csv"), csv.String())
+			res, _, e := x.query(sql + ";")
+			x.close()
+			sig := "select:recursive:" + strings.ToLower(strings.ReplaceAll(op, " ", "-"))
+			if e != "" {
+				fail(sig, sql, e)
+				continue
+			}
+			var rr [][]int
+			bad := false
+			for _, row := range res {
+				var l []int
+				for _, c := range row {
+					switch {
+					case c.N:
+						l = append(l, -1)
+					case c.HasI:
+						l = append(l, int(c.I))
+					default:
+						bad = true
+					}
+				}
+				rr = append(rr, l)
+			}
+			if bad {
+				fail(sig, sql, "non-integer-result")
+				continue
+			}
+			if rr == nil {
+				rr = [][]int{}
+			}
+			if edges == nil {
+				edges = [][]int{}
+			}
+			evs = append(evs, relEvent{SQL: sql, Sig: sig, CPU: cpu, Ev: map[string]interface{}{"kind": "recursive", "all": all, "k0": k0, "depth": strings.Contains(sql, "r.d + 1"), "edges": edges, "res": rr}})
 		case kind < 3: // filter
 			g := &condGen{r: r, names: []string{"id", "a", "b", "k"}, kinds: []string{"int", "num", "text", "int"}}
 			ce, cs := g.cond(2)
